@@ -25,6 +25,10 @@ ROOT = os.path.dirname(HERE)
 LEAN = os.path.join(ROOT, 'lean')
 sys.path.insert(0, HERE)
 os.environ.setdefault('PYTHONDONTWRITEBYTECODE', '1')
+# pamqp must not depend on the host time zone (C15): run the whole harness in a zone with a
+# 45-minute offset and DST (POSIX rule string, needs no tz database) instead of UTC
+os.environ['TZ'] = os.environ.get('VERIF_TZ', 'CHAST-12:45CHADT,M9.5.0/2:45,M4.1.0/3:45')
+time.tzset()
 
 STD_AXIOMS = {'propext', 'Classical.choice', 'Quot.sound'}
 FORBIDDEN = re.compile(r'\b(sorry|admit|native_decide|bv_decide|implemented_by|unsafe)\b|^\s*axiom\s|maxHeartbeats\s+0', re.M)
